@@ -153,7 +153,8 @@ CHECKS["C17"] = dict(
 
 CHECKS["C19"] = dict(
    text=("SyncDist.tla: the sync retry loop and the distributed RETRY / re-queue / counter machine run to completion for every "
-         "script of up to three executions x max_retries 0..2 x default / custom retry_for: SyncEqualsDistributed, ExecutionCount. "
+         "script of up to three executions x max_retries 0..2 x default / custom retry_for: SyncEqualsDistributed, ExecutionCount; "
+         "PynencCore.tla with the blocking-scan claim and the retry order: AtMostMaxPlusOne (expected counterexample for the pinned order). "
          "Generated programs (per-execution outcomes ok / RetryError / retry_for exception / non-retriable; sub-tasks singly or as "
          "a group, depth 2) run on the real code in sync mode and distributed on the memory and SQLite stacks with the real "
          "ThreadRunner (deterministic world); TLC compares kind, value and per-node body executions between the modes and with "
